@@ -23,6 +23,7 @@ def fd_errors(f, sp_ran, x, d, Dd, hs=HS):
     The rounding noise of the difference quotient, ~ eps * |f(x)| / h, is subtracted from the discrepancy, so
     that expressions with cancellation ((A + v) - A) or badly scaled values do not produce spurious errors."""
     errs = []
+    del fds[:]
     try:
         with np.errstate(all='ignore'):
             fx = _norm(sp_ran, f(x))
@@ -38,7 +39,28 @@ def fd_errors(f, sp_ran, x, d, Dd, hs=HS):
         diff = max(0.0, _norm(sp_ran, _sub(sp_ran, fd, Dd)) - noise)
         e = diff / sc
         errs.append(e if np.isfinite(e) else float('inf'))
+        fds.append((fd, noise, sc))
     return errs
+
+
+fds = []
+
+
+def quotient_sequence_converged(sp_ran, tol=1e-4):
+    """True if the last difference quotients of the most recent fd_errors() call agree with each other (the
+    quotient sequence itself is Cauchy).  If not - overflowing or violently oscillating expression trees - the
+    oracle has no reference value and the case is inconclusive, not a violation."""
+    last = fds[-3:]
+    if len(last) < 3:
+        return False
+    for (a, na, sa), (b, nb, sb) in zip(last, last[1:]):
+        try:
+            d = max(0.0, _norm(sp_ran, _sub(sp_ran, a, b)) - na - nb)
+        except Exception:
+            return False
+        if not np.isfinite(d) or d > tol * max(sa, sb):
+            return False
+    return True
 
 
 def verdict(errs):
